@@ -134,6 +134,171 @@ def discharge_portfolio(obls, timeout_ms=60000, jobs=None):
     return obls
 
 
+def _consts(e, cache):
+    """names of the uninterpreted constants of a term"""
+    k = e.get_id()
+    if k in cache:
+        return cache[k]
+    out, seen, todo = set(), set(), [e]
+    while todo:
+        x = todo.pop()
+        i = x.get_id()
+        if i in seen:
+            continue
+        seen.add(i)
+        if z3.is_quantifier(x):
+            todo.append(x.body())
+        elif z3.is_app(x):
+            if x.num_args() == 0 and x.decl().kind() == z3.Z3_OP_UNINTERPRETED:
+                out.add(x.decl().name())
+            todo.extend(x.children())
+    cache[k] = out
+    return out
+
+
+def sliced_smt2(ob, prefixes):
+    """The obligation with every hypothesis dropped that mentions a definitional symbol (name prefix in `prefixes`, e.g. the symbol of a square root) the goal does not mention.
+    A goal that follows from a subset of the hypotheses follows from all of them, so `unsat` for this text is a proof of the obligation; `sat` means nothing and is discarded
+    by the caller.  None when nothing would be dropped."""
+    if ob.expect != 'unsat' or not prefixes:
+        return None
+    cache = {}
+    gs = _consts(ob.goal, cache)
+    keep = [h for h in ob.hyps if not any(n.startswith(tuple(prefixes)) and n not in gs for n in _consts(h, cache))]
+    if len(keep) == len(ob.hyps):
+        return None
+    return to_smt2(ob, keep + [z3.Not(ob.goal)])
+
+
+HERMETIC_SEEDS = (0, 1, 2, 3)
+if os.environ.get('PYVC_SEED_SHIFT'):
+    # robustness experiments only (tools/seed_shift.sh): another set of seeds, none of them z3's default
+    HERMETIC_SEEDS = tuple(int(os.environ['PYVC_SEED_SHIFT']) * 10 + k for k in (1, 2, 3, 4))
+Z3ONE = os.path.join(os.path.dirname(os.path.abspath(__file__)), 'z3one.py')
+
+
+def discharge_hermetic(obls, timeout_ms=60000, jobs=None, grace_s=2.0):
+    """nonlinear-real obligations: every solver run is a process of its own (z3 through pyvc/z3one.py, cvc5 as a binary), started and killed by this scheduler.
+    Per obligation the configurations z3 (default seeds), cvc5, z3 seed 1, 2, 3 are queued in that order over all obligations; a configuration is only started while its obligation
+    has no definite answer, so the extra seeds cost nothing on a query the first run decides.  The first definite answer wins (any `unsat` is a proof of the same query, any `sat` a
+    counter-model candidate); runs of the same obligation that are still going get `grace_s` to finish (their answers are compared: two different definite answers are a
+    disagreement -> soundness guard of the driver) and are then killed.  Nothing is left running when this returns."""
+    import sys, json as _json, shutil
+    J = jobs or min(16, os.cpu_count() or 4)
+    tmp = tempfile.mkdtemp(prefix='pyvc_h_', dir=os.environ.get('TMPDIR', '/tmp'))
+    byname = {ob.name: ob for ob in obls}
+    files, sfiles, results, decided_at = {}, {}, {ob.name: [] for ob in obls}, {}
+    queue, running, serial = [], [], [0]
+    try:
+        for i, ob in enumerate(obls):
+            smt2 = to_smt2(ob)
+            if '(set-logic' not in smt2:
+                smt2 = '(set-logic ALL)\n' + smt2
+            files[ob.name] = os.path.join(tmp, '%04d.smt2' % i)
+            with open(files[ob.name], 'w') as f:
+                f.write(smt2)
+            sl = sliced_smt2(ob, getattr(ob, 'slice_prefixes', ()))
+            if sl is not None:
+                sfiles[ob.name] = os.path.join(tmp, '%04d_sliced.smt2' % i)
+                with open(sfiles[ob.name], 'w') as f:
+                    f.write(sl if '(set-logic' in sl else '(set-logic ALL)\n' + sl)
+        # 'z3s' / 'cvc5s': the same solvers on the sliced text (only `unsat` counts)
+        confs = [('z3', HERMETIC_SEEDS[0]), ('z3s', HERMETIC_SEEDS[0]), ('cvc5', 0), ('cvc5s', 0)] + [c for k in HERMETIC_SEEDS[1:] for c in (('z3', k), ('z3s', k))]
+        for conf in confs:
+            for ob in obls:
+                if conf[0] in ('z3s', 'cvc5s') and ob.name not in sfiles:
+                    continue
+                queue.append((ob.name, conf))
+
+        def start(name, conf):
+            serial[0] += 1
+            out = open(os.path.join(tmp, 'out_%05d' % serial[0]), 'w+')
+            path = sfiles[name] if conf[0] in ('z3s', 'cvc5s') else files[name]
+            if conf[0] in ('z3', 'z3s'):
+                cmd = [sys.executable, Z3ONE, path, str(timeout_ms), str(conf[1]), '1']
+            else:
+                cmd = ['/usr/bin/cvc5', '--tlimit=%d' % timeout_ms, path]
+            p = subprocess.Popen(cmd, stdout=out, stderr=subprocess.DEVNULL)
+            running.append((name, conf, p, time.time(), out))
+
+        def reap(name, conf, p, t0, out, killed=None):
+            dt = time.time() - t0
+            out.seek(0)
+            txt = out.read().strip()
+            out.close()
+            if conf[0] in ('z3', 'z3s'):
+                be = 'z3-%s%s' % (z3.get_version_string(), (' seed %d' % conf[1]) if conf[1] else '')
+                try:
+                    r = _json.loads(txt.split('\n')[-1])
+                    res = (name, r['status'], r.get('time', dt), r.get('backend', be), r.get('model'), r.get('reason', ''))
+                except Exception:  # noqa
+                    res = (name, 'unknown', dt, be, None, killed or 'no answer (exit %s)' % p.returncode)
+            else:
+                first = txt.split('\n')[0] if txt else 'unknown'
+                res = (name, first if first in ('sat', 'unsat') else 'unknown', dt, 'cvc5-1.0.3', None, killed or '')
+            if conf[0] in ('z3s', 'cvc5s'):
+                # sliced text: fewer hypotheses, so only a proof carries over to the obligation
+                res = (name, 'unsat' if res[1] == 'unsat' else 'unknown', res[2], res[3] + ' on the sliced hypotheses', None,
+                       res[5] if res[1] != 'sat' else 'sliced query satisfiable: says nothing about the obligation')
+            results[name].append(res)
+            if res[1] in ('sat', 'unsat') and name not in decided_at:
+                decided_at[name] = time.time()
+
+        while queue or running:
+            now = time.time()
+            for item in list(running):
+                name, conf, p, t0, out = item
+                if p.poll() is not None:
+                    running.remove(item)
+                    reap(*item)
+                elif (name in decided_at and now - decided_at[name] > grace_s) or now - t0 > timeout_ms / 1000 + 10:
+                    p.kill()
+                    p.wait()
+                    running.remove(item)
+                    reap(*item, killed='stopped: another run decided the query' if name in decided_at else 'timeout (killed)')
+            while queue and len(running) < J:
+                name, conf = queue.pop(0)
+                if name not in decided_at:
+                    start(name, conf)
+            time.sleep(0.02)
+        for name, rs in results.items():
+            ob = byname[name]
+            definite = [r for r in rs if r[1] in ('sat', 'unsat')]
+            how = ' (hermetic portfolio: z3 seeds %s | cvc5, full and sliced hypotheses, one process per run)' % ','.join(str(k) for k in HERMETIC_SEEDS)
+            if definite:
+                r = definite[0]
+                ob.result = {'status': r[1], 'time': r[2], 'backend': r[3] + how, 'model': None, 'reason': '', 'runs': [(x[3], x[1], round(x[2], 2)) for x in rs]}
+                zm = [x for x in definite if x[4] is not None and x[1] == r[1]]
+                if zm:
+                    ob.result['model'] = zm[0][4]
+                if len({x[1] for x in definite}) > 1:
+                    ob.result['disagreement'] = [(x[3], x[1]) for x in definite]
+            else:
+                ob.result = {'status': 'unknown', 'time': max([r[2] for r in rs] + [0.0]), 'backend': 'z3 | cvc5' + how, 'model': None,
+                             'reason': '; '.join('%s: %s %s' % (r[3], r[1], r[5]) for r in rs), 'runs': [(x[3], x[1], round(x[2], 2)) for x in rs]}
+        # a refuted obligation needs a z3 model (cvc5 gives none here)
+        need = [ob for ob in obls if ob.result['status'] == 'sat' and ob.result['model'] is None and ob.expect == 'unsat']
+        for ob in need:
+            for k in HERMETIC_SEEDS[:2]:
+                try:
+                    p = subprocess.run([sys.executable, Z3ONE, files[ob.name], '30000', str(k), '1'], capture_output=True, text=True, timeout=45)
+                    r = _json.loads(p.stdout.strip().split('\n')[-1])
+                except Exception:  # noqa
+                    continue
+                if r.get('status') == 'sat' and r.get('model'):
+                    ob.result['model'] = r['model']
+                    break
+    finally:
+        for item in running:
+            try:
+                item[2].kill()
+                item[2].wait()
+            except Exception:  # noqa
+                pass
+        shutil.rmtree(tmp, ignore_errors=True)
+    return obls
+
+
 def discharge(obls, timeout_ms=60000, jobs=None, second=False, portfolio_kinds=('fp',)):
     # obligations of different bundles may share a name: work on unique internal keys
     names = [o.name for o in obls]
@@ -147,6 +312,13 @@ def discharge(obls, timeout_ms=60000, jobs=None, second=False, portfolio_kinds=(
         finally:
             for i, o in enumerate(obls):
                 o.name = saved[i]
+    hm = [o for o in obls if getattr(o, 'hermetic', False)]
+    if hm:
+        discharge_hermetic(hm, timeout_ms, jobs)
+        obls_rest = [o for o in obls if not getattr(o, 'hermetic', False)]
+        if obls_rest:
+            discharge(obls_rest, timeout_ms, jobs, second, portfolio_kinds)
+        return obls
     pf = [o for o in obls if getattr(o, 'portfolio', False)]
     if pf:
         discharge_portfolio(pf, timeout_ms, jobs)
